@@ -85,14 +85,15 @@ def build(repo):
                          'implies(norm(vsub(x, c)) <= r, result == x)', 'C15')])
     # ------------------------------------------------------------------ convex step solvers: the trust-region ball is projected last
     STEP_REQ = ['delta > 0', 'Dykstra runs at least one sweep (dykstra.max_iters >= 1 in the parameter table):: d_max_iters >= 1', 'd_tol >= 0']
-    D.contract('ctrsbox_pgd', tags=['C13'], params={'xopt': 'V', 'g': 'V', 'H': 'unk', 'projections': 'plist', 'delta': 'real', 'd_max_iters': 'int', 'd_tol': 'real'},
-               requires=STEP_REQ, modifies=[], result=None,
+    FINREQ = [('(C08 iv) the convex step solvers are only entered with a finite model gradient and Hessian (otherwise the zero step is taken):: ALLFINITE(g) and ALLFINITE(H)', 'C08', 'C13')]
+    D.contract('ctrsbox_pgd', tags=['C13'], params={'xopt': 'V', 'g': 'V', 'H': 'V', 'projections': 'plist', 'delta': 'real', 'd_max_iters': 'int', 'd_tol': 'real'},
+               requires=STEP_REQ + FINREQ, modifies=[], result=None,
                loops={'for:ii#0': ['norm(d) <= delta']},
                ensures=['||d|| <= Delta (real arithmetic):: norm(result[0]) <= delta'])
     D.contract('ctrsbox_sfista', tags=['C13'],
-               params={'xopt': 'V', 'g': 'V', 'H': 'unk', 'projections': 'plist', 'delta': 'real', 'd_max_iters': 'int', 'd_tol': 'real', 'h': 'cb:h',
+               params={'xopt': 'V', 'g': 'V', 'H': 'V', 'projections': 'plist', 'delta': 'real', 'd_max_iters': 'int', 'd_tol': 'real', 'h': 'cb:h',
                        'prox_uh': 'cb:prox_uh', 'L_h': 'real', 'func_tol': 'real', 'max_iters': 'int'},
-               requires=STEP_REQ + ['A-params sub-range (the S-FISTA loop runs at least once; func_tol.max_iters = 0 is accepted by the parameter check and leaves gnew unbound):: max_iters >= 1'],
+               requires=STEP_REQ + FINREQ + ['A-params sub-range (the S-FISTA loop runs at least once; func_tol.max_iters = 0 is accepted by the parameter check and leaves gnew unbound):: max_iters >= 1'],
                modifies=[], result=None,
                loops={'for:k#0': ['norm(d) <= delta']},
                ensures=['||d|| <= Delta (real arithmetic):: norm(result[0]) <= delta'])
@@ -122,5 +123,10 @@ def build(repo):
                         'isnone(self.h) or model_value(result[1], result[2], zerov, XOPT_ABS(), self.h, (), None) == HU(RSV(XOPT_ABS()))',
                         'the regularised step handed to the main loop never has a negative predicted reduction (h(x) - m(d) >= 0; the zero step is substituted otherwise):: '
                         'isnone(self.h) or HU(RSV(XOPT_ABS())) - MVF(result[1], result[2], result[0], XOPT_ABS()) >= 0'])
-    D.verify_list = ['model_value', 'Controller.trust_region_step', 'dykstra', 'pball', 'ctrsbox_pgd', 'ctrsbox_sfista', 'ctrsbox_linear', 'ctrsbox_geometry']
+    D.contract('Controller.evaluate_criticality_measure', tags=['C08', 'C13'],
+               requires=['parameters inside the range table (established by solve):: params("dykstra.max_iters") >= 1 and params("dykstra.d_tol") >= 0',
+                         'A-params sub-range (func_tol.max_iters = 0 is accepted by the parameter check):: params("func_tol.max_iters") >= 1'],
+               modifies=[], result=None, ensures=[],
+               notes='under contract for its call-site obligations only: S-FISTA is entered with a finite gradient (and a zero Hessian) or not at all')
+    D.verify_list = ['model_value', 'Controller.trust_region_step', 'Controller.evaluate_criticality_measure', 'dykstra', 'pball', 'ctrsbox_pgd', 'ctrsbox_sfista', 'ctrsbox_linear', 'ctrsbox_geometry']
     return D
